@@ -146,6 +146,7 @@ def check_artifacts(outdir, key, kid, plaintext, hash_alg):
     return v, res["iv"]
 
 
+@faults.guarded()
 def run_encrypt(route, firmware, key_name, kid, keysdir, outdir, hash_alg, wd):
     """-> exception or None"""
     try:
